@@ -268,30 +268,32 @@ impl SampledFunction {
                 match self.order {
                     Interpolation::Linear => {
                         let (i, _, s) = self.input[0].map(x[0]);
-                        let idx = i * n_out;
+                        // the sample position comes from file data: it may lie outside the table
+                        let idx = i.saturating_mul(n_out);
 
-                        for (o, &a) in out.iter_mut().zip(&self.data[idx..]) {
+                        out.fill(0.0);
+                        for (o, &a) in out.iter_mut().zip(self.data.get(idx..).unwrap_or(&[])) {
                             *o = a as f32 * (1. - s);
                         }
-                        for (o, &b) in out.iter_mut().zip(&self.data[idx + n_out..]) {
+                        for (o, &b) in out.iter_mut().zip(self.data.get(idx.saturating_add(n_out)..).unwrap_or(&[])) {
                             *o += b as f32 * s;
                         }
                     }
-                    _ => unimplemented!()
+                    _ => bail!("cubic interpolation is not implemented")
                 }
             }
             2 => match self.order {
                 Interpolation::Linear => {
                     let (i0, s0, f0) = self.input[0].map(x[0]);
                     let (i1,  _, f1) = self.input[1].map(x[1]);
-                    let (j0, j1) = (i0+1, i1+1);
+                    let (j0, j1) = (i0.saturating_add(1), i1.saturating_add(1));
                     let (g0, g1) = (1. - f0, 1. - f1);
                     
                     out.fill(0.0);
-                    let mut add = |i0, i1, f| {
-                        let idx = (i0 + s0 * i1) * n_out;
+                    let mut add = |i0: usize, i1: usize, f| {
+                        let idx = s0.saturating_mul(i1).saturating_add(i0).saturating_mul(n_out);
                         
-                        if let Some(part) = self.data.get(idx .. idx+n_out) {
+                        if let Some(part) = self.data.get(idx .. idx.saturating_add(n_out)) {
                             for (o, &b) in out.iter_mut().zip(part) {
                                 *o += f * b as f32;
                             }
@@ -303,21 +305,21 @@ impl SampledFunction {
                     add(i0, j1, g0 * f1);
                     add(j0, j1, f0 * f1);
                 }
-                _ => unimplemented!()
+                _ => bail!("cubic interpolation is not implemented")
             }
             3 => match self.order {
                 Interpolation::Linear => {
                     let (i0, s0, f0) = self.input[0].map(x[0]);
                     let (i1, s1, f1) = self.input[1].map(x[1]);
                     let (i2,  _, f2) = self.input[2].map(x[2]);
-                    let (j0, j1, j2) = (i0+1, i1+1, i2+1);
+                    let (j0, j1, j2) = (i0.saturating_add(1), i1.saturating_add(1), i2.saturating_add(1));
                     let (g0, g1, g2) = (1. - f0, 1. - f1, 1. - f2);
                     
                     out.fill(0.0);
-                    let mut add = |i0, i1, i2, f| {
-                        let idx = (i0 + s0 * (i1 + s1 * i2)) * n_out;
+                    let mut add = |i0: usize, i1: usize, i2: usize, f| {
+                        let idx = s1.saturating_mul(i2).saturating_add(i1).saturating_mul(s0).saturating_add(i0).saturating_mul(n_out);
                         
-                        if let Some(part) = self.data.get(idx .. idx+n_out) {
+                        if let Some(part) = self.data.get(idx .. idx.saturating_add(n_out)) {
                             for (o, &b) in out.iter_mut().zip(part) {
                                 *o += f * b as f32;
                             }
@@ -334,7 +336,7 @@ impl SampledFunction {
                     add(i0, j1, j2, g0 * f1 * f2);
                     add(j0, j1, j2, f0 * f1 * f2);
                 }
-                _ => unimplemented!()
+                _ => bail!("cubic interpolation is not implemented")
             }
             n => bail!("Order {}", n)
         }
